@@ -14,7 +14,8 @@ AXIOM_ALLOW = ["ClassicalDedekindReals.sig_forall_dec", "ClassicalDedekindReals.
 RULE = ("random rule sets: 1..6 agents with 1..4 actions, 0..10 rules over 1..3 agents each (repeated, nested, "
         "overlapping, disconnected key sets; unmentioned agents; negative / zero dyadic payoffs), 1..3 rule sets "
         "per case run on the same maximiser/graph objects; *mix kinds: one maximiser (VE: and graph) object over 2..4 "
-        "problems with DIFFERENT action spaces; non-trivial = at least two rules and one rule over "
+        "problems with DIFFERENT action spaces; veq/lsq/mpq/rilsq: QFunction (FactoredVector) inputs with several "
+        "bases on the same tag and nested/overlapping tags, through the QFunction overloads of Make/UpdateGraph; non-trivial = at least two rules and one rule over "
         ">= 2 agents")
 TRUSTED_BASE = [
     "size_t modelled as unbounded nat; doubles as exact rationals (dyadic payoffs: sums are exact)",
@@ -270,7 +271,49 @@ def gen_ucve_sparse_pairs1(rng, fixed):
     return "ucve %s %s 1 %s" % (L(A), logtA, fmt_rules(rules))
 
 
+def gen_qf(rng, A, tags):
+    """a QFunction: 2..5 bases drawn WITH repetition from the tags (several bases on one tag), dense dyadic values"""
+    nb = rng.randint(1, 5)
+    bases = []
+    for i in range(nb):
+        tag = tags[i] if i < len(tags) and rng.random() < 0.5 else rng.choice(tags)
+        size = 1
+        for k in tag:
+            size *= A[k]
+        bases.append("%s %d %s" % (L(tag), size, " ".join(dy(rng) for _ in range(size))))
+    return "%d %s" % (nb, " ".join(bases))
+
+
+def gen_case_q(rng, kind):
+    A = gen_A(rng, maxn=5)
+    pool = gen_keysets(rng, A)                      # overlapping / nested tags
+    tags = [list(t) for t in {tuple(t) for t in pool}]
+    tags = tags[:rng.randint(1, len(tags))]
+    nsets = rng.choice([1, 2, 2, 3])
+    extra = ""
+    if kind == "mpq":
+        extra = " %d" % rng.choice([0, 1, 2, 5, 10])
+    if kind == "rilsq":
+        extra = " %d %d" % (rng.choice([0, 1, 3, 10]), rng.choice([0, 1]))
+    first = gen_qf(rng, A, tags)
+    # the first QFunction fixes the graph structure: make sure it mentions every tag
+    first_all = "%d %s" % (len(tags) + int(first.split()[0]),
+                           " ".join("%s %d %s" % (L(t), _sz(A, t), " ".join(dy(rng) for _ in range(_sz(A, t)))) for t in tags)
+                           + " " + first.split(" ", 1)[1])
+    sets = [first_all] + [gen_qf(rng, A, tags) for _ in range(nsets - 1)]
+    return "%s %s%s %d %s" % (kind, L(A), extra, nsets, " ".join(sets))
+
+
+def _sz(A, tag):
+    s = 1
+    for k in tag:
+        s *= A[k]
+    return s
+
+
 def gen_case(rng, kind):
+    if kind in ("veq", "lsq", "mpq", "rilsq"):
+        return gen_case_q(rng, kind)
     if kind in ("move", "ucve"):
         A = gen_A(rng, maxn=5, maxa=3)
     else:
@@ -329,5 +372,6 @@ def gen_case(rng, kind):
 def gen(rng, tier):
     n = {"quick": 1500, "thorough": 12000, "search": 4000}[tier]
     kinds = ["ve"] * 9 + ["ls", "ls", "mp", "mp", "rils", "rils", "move", "move", "ucve", "ucve",
-                          "vemix", "lsmix", "mpmix", "rilsmix", "ucve"]
+                          "vemix", "lsmix", "mpmix", "rilsmix", "ucve",
+                          "veq", "lsq", "mpq", "rilsq"]
     return [gen_case(rng, rng.choice(kinds)) for _ in range(n)]
